@@ -362,6 +362,12 @@ def gen_task(rng, alloc, label, uid, single=False):
                 ranks.append({'node': p, 'cores': cores[i:i + cpr],
                               'gpus': list(gpus), 'gocc': gocc})
 
+    # rank order need not be grouped by node: application-supplied placements
+    # (and scattered allocations) interleave nodes, e.g. [n1, n2, n1, n2]
+    if a == 1 and len(ranks) > 2 and rng.random() < 0.3:
+        rng.shuffle(ranks)
+        return _finish_task(rng, alloc, label, uid, ranks, a, 'interleaved')
+
     return _finish_task(rng, alloc, label, uid, ranks, a, 'random')
 
 
@@ -1544,8 +1550,14 @@ def check_cmd(obs, spec, alloc, label, res, case, tag=''):
     if verdict:
         res.see('violation_placement_sources',
                 '%s/%s: %s' % (verdict[0], label, spec['src']))
-        res.violation('%s/%s' % (verdict[0], label),
-                      '%s | %s' % (verdict[1], cmds[:300]), ctx)
+        mech = '%s/%s' % (verdict[0], label)
+        if spec['src'] == 'interleaved' and 'pals' in label.lower():
+            # PALS assigns ranks to hosts in host-file order (all ranks of a
+            # host consecutively, see the NOTE in mpiexec.py): a rank order
+            # which interleaves nodes cannot be expressed at all - same design
+            # limitation as the single --ppn, keyed separately
+            mech = 'rank-order-not-expressible/%s' % label
+        res.violation(mech, '%s | %s' % (verdict[1], cmds[:300]), ctx)
     return True
 
 
